@@ -222,6 +222,30 @@ func solveObl(vc *VC, o *Obl, dir string, tier string, seed int, idx int) {
 		o.Model = candidate.out
 		o.Output = "full script: " + final.result + "; without the quantified string axioms: sat (candidate counterexample)\n" + trunc(candidate.out, 6000)
 	}
+	if tier == "thorough" && decided && final.result == "unsat" {
+		// proof stability: the deciding query is re-run under two other solver seeds. A different
+		// definite answer is a contradiction (broken); a seed that no longer answers within the
+		// budget marks the proof as brittle (recorded, not a failure).
+		variant := file
+		switch {
+		case final.solver == "z3-new(qf)" && fileNQ != "":
+			variant = fileNQ
+		case fileNA != file && strings.Contains(final.out, ";NA;"):
+			variant = fileNA
+		}
+		if strings.HasPrefix(final.solver, "z3-new") {
+			for _, sd := range []int{seed + 101, seed + 202} {
+				rr := runSolver(ctx, solvers[0], variant, 30, sd)
+				o.Time += rr.time
+				if rr.result == "sat" && variant == file {
+					o.Result = "disagree"
+					o.Output = fmt.Sprintf("z3-new says unsat under seed %d and sat under seed %d", seed, sd)
+				} else if rr.result != "unsat" {
+					o.Brittle = append(o.Brittle, fmt.Sprintf("seed %d: %s after %.1fs", sd, rr.result, rr.time))
+				}
+			}
+		}
+	}
 	if tier == "thorough" && decided {
 		// cross-check with the other back ends: they must not contradict
 		for _, s := range solvers {
